@@ -319,7 +319,10 @@ Record msnap := mkMsnap {
   ms_ret : mret;       (* it returned, with which answer                                    *)
   ms_rdead : bool;     (* its context was done at the moment it returned                    *)
   ms_dead : bool;      (* its context is done now                                           *)
-  ms_rd : rdst         (* the reader it handed out: none / open / closed / closed twice     *)
+  ms_rd : rdst;        (* the reader it handed out: none / open / closed / closed twice     *)
+  ms_timer : bool      (* the context it was given carries a deadline (a timer) that the
+                          caller's context does not have: it can end without the caller
+                          cancelling and without the unifier's cancel being called            *)
 }.
 
 Record snapshot := mkSnap {
@@ -336,7 +339,9 @@ Record snapshot := mkSnap {
 Definition msnap_of (i : mem) (s : state) : msnap :=
   let x := sd i s in
   let started := match pc x with S_idle | S_new => false | _ => true end in
-  mkMsnap started (mr x) (rdead x) (started && dead i s) (rd x).
+  (* context.WithCancel: the derived context ends by its own cancel or with the caller's, never by
+     a timer of its own *)
+  mkMsnap started (mr x) (rdead x) (started && dead i s) (rd x) false.
 
 Definition b2n (b : bool) : N := if b then 1 else 0.
 
